@@ -5,5 +5,6 @@ CONSTANTS
   MaxCalls = 2
   NopProcs = {3}
   Variant = "outside"
+  Ctxs = {"live"}
 INVARIANTS NopSticks
 CHECK_DEADLOCK FALSE
